@@ -1164,7 +1164,7 @@ void generate(const std::string &prop, Rng &wl, Rng &fl, Case &c)
   {
     TaskProg p;
     p.role = R_RECORDER;
-    int n  = (int)wl.range(2, 20);
+    int n  = (int)wl.range(2, vsim::tier_scale() > 1 && wl.chance(0.5) ? 32 : 20);
     for (int j = 0; j < n; ++j)
     {
       int i = (int)wl.below(ninstr);
@@ -1192,7 +1192,7 @@ void generate(const std::string &prop, Rng &wl, Rng &fl, Case &c)
   {
     TaskProg p;
     p.role = R_COLLECTOR;
-    int n  = (int)wl.range(0, 4);
+    int n  = (int)wl.range(0, vsim::tier_scale() > 1 && wl.chance(0.5) ? 7 : 4);
     for (int j = 0; j < n; ++j)
     {
       if (wl.chance(0.3))
